@@ -8,8 +8,8 @@ from .result import Result
 CFG = {"quick": ["MC_Vft_q1.cfg"], "thorough": ["MC_Vft_t1.cfg"]}
 
 
-def run_vft(pid, tier):
-    res = Result(pid, tier)
+def run_vft(pid, tier, res=None, finish=True):
+    res = res or Result(pid, tier)
     pl = Pipeline(tier, module="MC_Vft", cfgs=CFG, name="vft")
     pl.compile()
     cov = pl.base_coverage()
@@ -131,7 +131,26 @@ def run_vft(pid, tier):
                 "model_level_violations": n_model,
                 "rustc_types_checked": {t: len(v) for t, v in pl.layouts.items()},
                 "rustc_rejected_cases": {t: len(v) for t, v in pl.cfail.items()}})
+    if not finish:
+        return res, cov
     res.coverage = cov
     res.assumptions = ["wrapper bodies are classified by shape; an unrecognised shape is never judged",
                        "execution of the wrappers on the host is a separate step (exec rig)"]
+    return res.finish()
+
+
+def run_c16(tier):
+    """C16 over both the vftable/impl space (MC_Vft) and inheritance chains (MC_Inherit)"""
+    from . import inherit
+    res = Result("C16", tier)
+    _, cov1 = run_vft("C16", tier, res, finish=False)
+    _, cov2 = inherit.run_inherit("C16", tier, res, finish=False)
+    cov = dict(cov1)
+    for k in ("states", "transitions", "traces_validated_against_impl", "evaluations", "distinct_nontrivial", "model_level_violations"):
+        cov[k] = cov1.get(k, 0) + cov2.get(k, 0)
+    cov["tlc"] = [cov1["tlc"], cov2["tlc"]]
+    cov["checker_cmd"] = cov1["checker_cmd"] + " ; " + cov2["checker_cmd"]
+    res.coverage = cov
+    res.assumptions = ["ABI strings are read from the emitted fn-pointer types with syn",
+                       "wrappers of receiver-less virtual functions are outside the compilable fragment; their slot types are still checked"]
     return res.finish()
